@@ -46,12 +46,14 @@ def explore_set(args):
     tg = sw.targets()
     out = []
     solo = {}
+    is_json = names[0] in sw.JSON_REQS
+    make = sw.make_app_json if is_json else sw.make_app
     for n in set(names):
         if n != 'wsdl':
-            solo[n] = sw.canon(sw.call(WsgiApplication(sw.make_app()), n)[1])
+            solo[n] = sw.canon(sw.call(WsgiApplication(make()), n)[1])
     seq_wsdl = set()
-    for perm in set(itertools.permutations(names)):
-        w = WsgiApplication(sw.make_app())
+    for perm in (set(itertools.permutations(names)) if not is_json else ()):
+        w = WsgiApplication(make())
         for n in perm:
             st, b = sw.call(w, n)
             if n == 'wsdl':
@@ -60,7 +62,7 @@ def explore_set(args):
 
     def run_once(chooser):
         s = sc.Sched(chooser)
-        w = WsgiApplication(sw.make_app())
+        w = WsgiApplication(make())
         saved = sw.instrument(w, s)
         res = {}
         workers = {}
@@ -104,6 +106,8 @@ def explore_set(args):
                 out.append(('shared|response-differs|%s|%s' % (n, where),
                             'request %s got a different response than alone (racing with %s)' % (n, where),
                             {'schedule': sched, 'requests': names, 'got': r[1][-300:].decode('utf8', 'replace')}))
+        if is_json:
+            continue
         after = sw.call(w, 'wsdl')[1]
         if sw.canon_doc(after) not in seq_wsdl:
             pm = {k: v for k, v in w.app.interface.prefmap.items() if k.startswith('ns.')}
@@ -116,7 +120,8 @@ def explore_set(args):
 def run(ctx, rnd):
     import multiprocessing as mp
     m1(ctx)
-    sets = [('fp', 'fq'), ('fq', 'fp', 'f'), ('f', 'boom', 'invalid'), ('wsdl', 'fq'), ('g', 'fp', 'wsdl')]
+    sets = [('fp', 'fq'), ('fq', 'fp', 'f'), ('f', 'boom', 'invalid'), ('wsdl', 'fq'), ('g', 'fp', 'wsdl'),
+            ('pt', 'pt2'), ('seg', 'pt'), ('pts', 'seg', 'pt')]
     if not ctx.quick:
         sets += [('fp', 'fq', 'wsdl'), ('fp', 'fp'), ('wsdl', 'wsdl', 'fq'), ('f', 'g'), ('invalid', 'fq', 'boom'),
                  ('fp', 'fq', 'f', 'g')]
